@@ -44,19 +44,32 @@ func Spec() *evid.Spec {
 			"in random blocks; uninterrupted run through faultdb + key-manager decorator gives K numbered interruption points (every Get/Set/SetMany/Delete/GetMany/GetAll/DeletePrefix/Begin/Commit/Discard on database and " +
 			"transactions, AddShare/RemoveShare/BumpSlashingProtection); quick: every point of a write/commit/key-manager kind up to 45 plus random others up to 60 per sequence, thorough: all points; each point in three modes " +
 			"(crash before the operation takes effect, crash after, error returned), then restart on the surviving database and resume from last processed + 1. Non-trivial = a fault that fired inside block processing; " +
-			"distinct = (sequence shape, point, mode); crash_points = (operation kind, record class, inside/outside a key-manager call, mode)",
+			"distinct = (sequence shape, point, mode); crash_points = (operation kind, record class, inside/outside a key-manager call, mode). " +
+			"Lane kill (validation of the crash model): for 4 (thorough 20) points of a sequence a helper process on an on-disk badger SIGKILLs itself before / after the operation, a second process restarts on the directory and finishes; " +
+			"its final records must equal the in-process model's prediction for that point (kill_model_agrees / kill_model_disagrees)",
 		Assumptions: []string{
 			"in-process crash model: a committed badger transaction and every database-level Set/SetMany/Delete/DeletePrefix that returned are durable; uncommitted transactions vanish; all in-memory objects (share map, operator data store, wallet) are rebuilt from the database",
 			"one fault per run; the restarted process runs without faults",
 			"the clock of the key manager is frozen so that slashing-protection records are comparable between runs",
 			"an injected error makes the operation fail without taking effect",
 			"the wallet's index record is not compared (it holds random account ids); account records, their number and the protection records are",
+			"lane kill: a helper process on an on-disk badger that SIGKILLs itself at the operation stands for a node crash (no power loss: the page cache survives)",
 		},
 		MinNontrivial: 500,
 		Lanes: []evid.Lane{
 			{Name: "enum", Children: evid.Const(16, 16), Cases: evid.Const(3, 25), TimeoutS: evid.Const(600, 3400), Setup: setup, Run: run},
+			// validation of the in-process crash model: on-disk badger, helper process SIGKILLed at the operation (see kill.go)
+			{Name: "kill", Children: evid.Const(4, 16), Cases: evid.Const(1, 3), TimeoutS: evid.Const(600, 3400), Setup: setup, Run: runKill},
 		},
 	}
+}
+
+// childData: the fixture plus the (kind, sig) pairs this child already reported with a witness. The
+// driver stops a child after 25 violations; a defect that shows at every sequence (a known finding)
+// must not eat that budget, so each (kind, sig) is witnessed once per child and counted every time.
+type childData struct {
+	env  *regsim.Env
+	seen map[string]bool
 }
 
 func setup(ch *evid.Child) {
@@ -64,7 +77,7 @@ func setup(ch *evid.Child) {
 	if err != nil {
 		panic(err)
 	}
-	ch.Data = env
+	ch.Data = &childData{env: env, seen: map[string]bool{}}
 }
 
 // kmDec numbers the key-manager calls of the event handler in the injector's index space.
@@ -89,18 +102,19 @@ func (k *kmDec) BumpSlashingProtection(pubKey []byte) error {
 
 // result of one execution of the whole sequence.
 type result struct {
-	state    []string // registry records decoded from the database
-	mem      []string // registry through the final node's getters
-	keys     []string // key-manager records
-	keyState *regsim.KeyState
-	k        int
-	trace    []faultdb.Op
-	fired    *faultdb.Op
-	restarts int
-	swallowed bool
-	err      string // fatal problem (could not finish)
-	redeliv  string // violation text of the re-delivery check
-	log      []string
+	state      []string // registry records decoded from the database
+	mem        []string // registry through the final node's getters
+	keys       []string // key-manager records
+	keyState   *regsim.KeyState
+	k          int
+	trace      []faultdb.Op
+	fired      *faultdb.Op
+	restarts   int
+	swallowed  bool
+	err        string // fatal problem (could not finish)
+	redeliv    string // violation text of the re-delivery check
+	log        []string
+	faultBlock int // index of the block during which the node died (-1: none)
 }
 
 func keyClass(detail string) string {
@@ -133,8 +147,8 @@ func enclosing(trace []faultdb.Op, i int) string {
 	return ""
 }
 
-func execute(env *regsim.Env, owners []ethcommon.Address, nums []uint64, logs [][]ethtypes.Log, at int, mode faultdb.Mode) *result {
-	r := &result{}
+func execute(env *regsim.Env, owners []ethcommon.Address, nums []uint64, blocks [][]*regsim.Event, logs [][]ethtypes.Log, at int, mode faultdb.Mode) *result {
+	r := &result{faultBlock: -1}
 	disk := env.NewMemDB()
 	defer disk.Close()
 	inj := faultdb.NewInjector()
@@ -162,6 +176,9 @@ func execute(env *regsim.Env, owners []ethcommon.Address, nums []uint64, logs []
 			continue
 		}
 		// the process is gone: drop what a process death drops, start a new one on the surviving database
+		if r.faultBlock < 0 {
+			r.faultBlock = bi
+		}
 		if crash != nil {
 			r.log = append(r.log, fmt.Sprintf("block %d: %s", nums[bi], crash))
 		} else {
@@ -235,7 +252,8 @@ func execute(env *regsim.Env, owners []ethcommon.Address, nums []uint64, logs []
 }
 
 func run(c *evid.Case) {
-	env := c.Child.Data.(*regsim.Env)
+	cd := c.Child.Data.(*childData)
+	env := cd.env
 	if err := env.Disk.Recycle(3000); err != nil {
 		c.Inconclusive("badger: " + err.Error())
 		return
@@ -274,7 +292,7 @@ func run(c *evid.Case) {
 	c.Count("blocks", int64(len(blocks)))
 	c.Journal("case %d: %d events, %d blocks: uninterrupted run", c.Index, len(evs), len(blocks))
 
-	ref := execute(env, w.Owners, nums, logs, -1, faultdb.None)
+	ref := execute(env, w.Owners, nums, blocks, logs, -1, faultdb.None)
 	witness := func(r *result, k int, mode faultdb.Mode) any {
 		w := map[string]any{"events": desc, "K": ref.k}
 		if r != nil {
@@ -341,7 +359,7 @@ func run(c *evid.Case) {
 		sort.Ints(points)
 	}
 
-	seen := map[string]bool{}
+	seen := cd.seen
 	for _, k := range points {
 		op := ref.trace[k]
 		enc := enclosing(ref.trace, k)
@@ -350,14 +368,18 @@ func run(c *evid.Case) {
 			where = "in-" + enc
 		}
 		for _, mode := range []faultdb.Mode{faultdb.CrashBefore, faultdb.CrashAfter, faultdb.Error} {
+			if mode == faultdb.Error && op.Kind == "txn.Discard" {
+				continue // Discard cannot fail
+			}
 			c.Journal("case %d: fault k=%d/%d %s at %s %s", c.Index, k, ref.k, mode, op.Kind, op.Detail)
-			r := execute(env, w.Owners, nums, logs, k, mode)
+			r := execute(env, w.Owners, nums, blocks, logs, k, mode)
 			c.Count("fault_runs", 1)
 			c.Count("fault_runs_"+mode.String(), 1)
 			c.Count("points_"+op.Kind, 1)
 			c.Count("restarts", int64(r.restarts))
 			if r.swallowed {
 				c.Count("errors_swallowed", 1)
+				c.Count("errors_swallowed_at "+op.Kind+"/"+keyClass(op.Detail)+"/"+where, 1)
 			}
 			if r.fired == nil && r.err == "" {
 				c.Count("fault_did_not_fire", 1)
@@ -370,7 +392,7 @@ func run(c *evid.Case) {
 				c.Count("divergences_"+kind, 1)
 				c.Count("divergence "+key, 1)
 				if seen[key] {
-					return // one witness per (kind, sig) and sequence
+					return // one witness per (kind, sig) and child process
 				}
 				seen[key] = true
 				c.Violation(kind, sig, detail, witness(r, k, mode))
@@ -404,7 +426,7 @@ func run(c *evid.Case) {
 				viol("memory-vs-database", base+"/"+firstClass(d), head+"after recovery the node's getters differ from its database (- records, + getters):\n"+strings.Join(d, "\n"))
 			}
 			if d := regsim.Diff(ref.keys, r.keys); len(d) > 0 {
-				kind, sig := classifyKeys(d, ref, r, k, mode)
+				kind, sig := classifyKeys(d, ref, r, k, mode, blocks)
 				viol(kind, sig, head+"final key-manager records differ from the uninterrupted run (- uninterrupted, + recovered):\n"+strings.Join(d, "\n")+
 					fmt.Sprintf("\naccounts uninterrupted=%v recovered=%v wallet-index recovered=%v", shorts(ref.keyState.Accounts), shorts(r.keyState.Accounts), shorts(r.keyState.WalletIndex)))
 			}
@@ -452,19 +474,39 @@ func firstClass(d []string) string {
 // and that is not reachable through the wallet index is an orphan; when the fault sits between
 // SaveAccount (db.Set of the account record) and SaveWallet (db.Set of the wallet record) inside
 // AddShare the signature says so.
-func classifyKeys(d []string, ref, r *result, k int, mode faultdb.Mode) (string, string) {
+func classifyKeys(d []string, ref, r *result, k int, mode faultdb.Mode, blocks [][]*regsim.Event) (string, string) {
 	op := ref.trace[k]
 	enc := enclosing(ref.trace, k)
 	kc := keyClass(op.Detail)
-	extraAcc, otherDiff := 0, false
+	extraAcc, extraSP, otherDiff := 0, 0, false
 	for _, l := range d {
 		switch {
 		case strings.HasPrefix(l, "+ account "):
 			extraAcc++
 		case strings.HasPrefix(l, "+ raw-account-records"), strings.HasPrefix(l, "- raw-account-records"):
+		case strings.HasPrefix(l, "+ highest-att "), strings.HasPrefix(l, "+ highest-prop "):
+			extraSP++
 		default:
 			otherDiff = true
 		}
+	}
+	// Protection records left behind for a key share that no longer exists. Known shape: the re-processed
+	// block reactivates the validator's cluster (BumpSlashingProtection re-creates the records that the first
+	// attempt's RemoveShare had deleted) and then removes the validator (RemoveShare finds no account any more
+	// and skips the protection cleanup).
+	if extraSP > 0 && extraAcc == 0 && !otherDiff {
+		if r.faultBlock >= 0 && r.faultBlock < len(blocks) {
+			react := false
+			for _, e := range blocks[r.faultBlock] {
+				if e.Kind == regsim.Reactivated && e.Unparsable == "" {
+					react = true
+				}
+				if e.Kind == regsim.ValidatorRemoved && e.Unparsable == "" && react {
+					return "orphan-slashing-protection-record", "reprocessed-block-Reactivated-then-Removed-after-RemoveShare-took-effect"
+				}
+			}
+		}
+		return "orphan-slashing-protection-record", fmt.Sprintf("%s@%s/%s/%s", mode, op.Kind, kc, enc)
 	}
 	if extraAcc > 0 && !otherDiff && r.keyState.RawAccounts > ref.keyState.RawAccounts {
 		between := enc == "km.AddShare" && op.Kind == "db.Set" &&
